@@ -1494,6 +1494,18 @@ def sysabs(hkl, syscond, crystal_system='triclinic', cell_choice='standard'):
                 k = -(hkl[0]+hkl[1])
                 l = hkl[2]
                 sys_type = sysabs_unique([h, k, l], syscond)
+    elif crystal_system == 'cubic':
+        # the three-fold axis along [111] makes the cyclic permutations equivalent
+        if sys_type == 0:
+            h = hkl[1]
+            k = hkl[2]
+            l = hkl[0]
+            sys_type = sysabs_unique([h, k, l], syscond)
+            if sys_type == 0:
+                h = hkl[2]
+                k = hkl[0]
+                l = hkl[1]
+                sys_type = sysabs_unique([h, k, l], syscond)
 
     return sys_type
     
